@@ -9,6 +9,7 @@ import (
 	"fmt"
 	"io"
 	"math"
+	"sync"
 	"testing"
 
 	"github.com/AdguardTeam/golibs/ioutil"
@@ -523,6 +524,106 @@ var writeProp = vp.Register(vp.Prop[WriteCase]{
 	},
 	Check: checkWrite,
 })
+
+// FarCase: a limit near a power-of-two boundary of the platform's word (2^31,
+// 2^32) and gigabytes written through one TruncatedWriter.  The underlying
+// writer only counts and checks that what it is given is the expected prefix
+// of the caller's buffer, so nothing is copied.
+type FarCase struct {
+	Limit  uint64 `json:"limit"`
+	Chunks []int  `json:"chunks"` // write sizes, each at most farBufLen; the list is cycled
+	Total  uint64 `json:"total"`  // stop after this many bytes were offered
+}
+
+const farBufLen = 1 << 26
+
+var (
+	farOnce sync.Once
+	farBuf  []byte
+)
+
+type farWriter struct {
+	total   uint64
+	expect  []byte // the slice the next call must receive (nil: no call expected)
+	called  bool
+	problem string
+}
+
+func (w *farWriter) Write(b []byte) (int, error) {
+	w.called = true
+	if len(b) != len(w.expect) || (len(b) > 0 && &b[0] != &w.expect[0]) {
+		if w.problem == "" {
+			w.problem = fmt.Sprintf("the underlying writer received %d bytes, want the first %d bytes of the written buffer", len(b), len(w.expect))
+		}
+	}
+	w.total += uint64(len(b))
+	return len(b), nil
+}
+
+func checkFar(c FarCase) error {
+	if c.Limit > math.MaxUint {
+		vp.Class("far:limit-not-representable-on-this-platform(skipped)")
+		return nil
+	}
+	farOnce.Do(func() { farBuf = make([]byte, farBufLen) })
+	w := &farWriter{}
+	tw := ioutil.NewTruncatedWriter(w, uint(c.Limit))
+	var offered uint64
+	for i := 0; offered < c.Total && len(c.Chunks) > 0; i++ {
+		sz := min(max(c.Chunks[i%len(c.Chunks)], 0), farBufLen)
+		if sz < farBufLen/2 && i%8 != 0 {
+			sz = farBufLen - sz // small writes are interleaved, not the whole history
+		}
+		b := farBuf[:sz]
+		want := uint64(0)
+		if offered < c.Limit {
+			want = min(uint64(sz), c.Limit-offered)
+		}
+		w.expect, w.called = b[:want], false
+		n, err := tw.Write(b)
+		offered += uint64(sz)
+		if n != sz || err != nil {
+			return fmt.Errorf("write %d (%d bytes, %d offered so far, limit %d): returned (%d, %v)", i, sz, offered, c.Limit, n, err)
+		}
+		if w.problem != "" {
+			return fmt.Errorf("write %d (%d bytes, %d offered so far, limit %d): %s", i, sz, offered, c.Limit, w.problem)
+		}
+		if want > 0 && !w.called {
+			return fmt.Errorf("write %d (%d bytes, %d offered so far, limit %d): nothing was forwarded, want %d bytes", i, sz, offered, c.Limit, want)
+		}
+		if w.total != min(offered, c.Limit) {
+			return fmt.Errorf("after write %d: %d bytes offered, limit %d, %d bytes forwarded in total", i, offered, c.Limit, w.total)
+		}
+	}
+	vp.Class("far")
+	if offered > c.Limit {
+		vp.Class("far:written-past-the-limit")
+	}
+	if offered >= 1<<32 {
+		vp.Class("far:2^32-bytes-or-more-offered")
+		vp.NonTrivialStr("c15.far", fmt.Sprintf("%+v", c))
+		vp.Sample("far", c)
+	}
+	return nil
+}
+
+var farProp = vp.Register(vp.Prop[FarCase]{
+	Kind: "c15.far", Base: 1500,
+	Gen: func(t *rapid.T) FarCase {
+		base := rapid.SampledFrom([]uint64{1 << 31, 1 << 32, 1 << 32, 1<<32 - 1, 1 << 32, 3 << 30}).Draw(t, "base")
+		d := rapid.OneOf(rapid.Int64Range(-8, 8), rapid.Int64Range(-farBufLen, farBufLen)).Draw(t, "d")
+		limit := uint64(int64(base) + d)
+		chunk := rapid.OneOf(rapid.Just(farBufLen), rapid.Just(farBufLen-1), rapid.IntRange(farBufLen/2, farBufLen), rapid.IntRange(0, 100))
+		return FarCase{
+			Limit:  limit,
+			Chunks: rapid.SliceOfN(chunk, 1, 5).Draw(t, "chunks"),
+			Total:  limit + uint64(rapid.Int64Range(-farBufLen, 3*farBufLen).Draw(t, "beyond")),
+		}
+	},
+	Check: checkFar,
+})
+
+func TestFar(t *testing.T) { vp.Run(t, farProp) }
 
 // NestedCase stacks two limited readers on one stream and reads through both
 // of them in a generated order.
